@@ -173,6 +173,13 @@ func (h *Client) Transmit(payload sts.Payload) (n int, err error) {
 		return
 	}
 	defer resp.Body.Close()
+	if resp.Request != nil && resp.Request.Method != req.Method {
+		// The answer is to another request than the one that carried the
+		// payload: a redirect was followed - as a GET, without the body - and
+		// whatever page it led to says nothing about the receiver
+		err = fmt.Errorf("bin request was redirected to %s: nothing was delivered", resp.Request.URL)
+		return
+	}
 	if resp.StatusCode == http.StatusPartialContent {
 		n, _ = strconv.Atoi(resp.Header.Get(HeaderPartCount))
 		err = fmt.Errorf(
